@@ -60,12 +60,21 @@ class Discard(io.TextIOBase):
         return len(s)
 
 
+class AsciiSink(io.TextIOBase):
+    """a stream that, like a terminal under LC_ALL=C, refuses what it cannot encode"""
+
+    def write(self, s):
+        s.encode("ascii")
+        return len(s)
+
+
 def run(src, mode, verbose, version):
     opts = {"verbose": verbose}
     if version is not None:
         opts["py_version"] = version
     if verbose:
-        with contextlib.redirect_stdout(Discard()):
+        # the trace goes to sys.stdout: discarded -- for non-ASCII sources into a stream that only takes ASCII
+        with contextlib.redirect_stdout(Discard() if src.isascii() else AsciiSink()):
             return outcome(src, mode, **opts)
     return outcome(src, mode, **opts)
 
@@ -231,7 +240,7 @@ def search(rec, ctx):
     def gen(rnd):
         r = rnd.random()
         if r < 0.3:
-            g = PyGen(rnd, max_depth=3)
+            g = PyGen(rnd, max_depth=3, nonascii=rnd.random() < 0.3)
             src = g.program(2)
             stream = "g1"
         elif r < 0.4:
